@@ -16,8 +16,14 @@ TRUSTED = [
 ]
 ASSUME = [
     "values are opaque to the model: equality of values is decided by the harness oracle (JSON equality, numbers by value)",
-    "insaneJSON.MapUseThreshold = math.MaxInt32 as set by proxy/bulk's init() in the seq-db binary (asserted by the driver): "
-    "Dig's map cache is never used, so only the linear Dig is modelled",
+    "insaneJSON.MapUseThreshold = math.MaxInt32 in every mode of the seq-db binary: cmd/seq-db/seq-db.go imports proxy/bulk "
+    "(directly and through proxyapi), whose init() sets it; cmd/seq-db is the only binary that links storeapi (asserted by "
+    "the driver). The current filter does not call Dig, so it does not depend on the threshold; the duplicate-key stream is "
+    "run a second time under the library default (16) on wide objects (classes mapthr16-*) so that a Dig-based filter that "
+    "is only correct without the map cache is a concrete failure",
+    "per-request filter state is private (theorem C20_interleaved_requests_private assumes dec_of = private): checked on the "
+    "real pool by the deterministic pool stream (distinct filter objects and decoders for filters held at once, after a "
+    "big document) and by concurrent requests",
     "documents have fewer than 2^24 top-level fields (width of insane-json's index and dirty-sequence bit fields)",
     "documents with duplicate keys are judged by the property text read on (key, value) pairs: every occurrence of a "
     "listed key is kept (allow) / removed (except); stream dupkeys-* is a permanent regression class (finding repaired by "
@@ -30,7 +36,11 @@ RULE = ("random JSON objects (0..30 top-level fields; strings with every escape 
         "pages through a real proxy with 2-3 store shards, documents spread over the shards, empty-named members, names that "
         "are prefixes of each other, repeated names in the pipe (search with pipe, proxy fetch with filter, Fetch on every "
         "store with filter; active and sealed; offsets/sizes/orders); makeFetchReq called for 1-4 sources with ONE filter "
-        "value (requests compared as name sets, caller's filter must be unchanged). non-trivial = document of >= 3 fields where the filter removes at least one field and keeps at least one / "
+        "value (requests compared as name sets, caller's filter must be unchanged); pool discipline: a 70-200 KB document "
+        "through a filter, release, then 3-5 filters held at once (identity of filter/decoder objects, interleaved use); "
+        "concurrency: 6 requests at once for some hundred iterations, unit level (held filters, yield between documents) and "
+        "in a child process on a 2-shard cluster with 70-200 KB documents (proxy fetch / store Fetch / search with pipe over "
+        "disjoint ID sets), outputs de-duplicated per (request, document, output). non-trivial = document of >= 3 fields where the filter removes at least one field and keeps at least one / "
         "pipe with >= 2 names / page of >= 2 documents / request set for >= 2 sources from a list with a repeated name; distinct by input")
 
 
